@@ -82,6 +82,13 @@ class RecStream:
         self.reads.append((req, len(out)))
         return out if self.rtype is None else self.rtype(out)
 
+    def readinto(self, buf):
+        # what raw streams (socket.SocketIO) offer beside read(): may fill less than asked for while more is to come
+        data = self.read(len(buf))
+        self.readinto_calls = getattr(self, 'readinto_calls', 0) + 1
+        buf[:len(data)] = bytes(data)
+        return len(data)
+
     def readline(self, n=-1):
         # PEP 3333 requires the method; the code under test is not expected to use it
         self.readline_calls = getattr(self, 'readline_calls', 0) + 1
@@ -158,6 +165,26 @@ def apply_flavour(env, flavour):
             env['SERVER_PORT'] = port or ('443' if env['wsgi.url_scheme'] == 'https' else '80')
     flavour_counts[flavour] = flavour_counts.get(flavour, 0) + 1
     return env
+
+
+class RecBytesIO(io.BytesIO):
+    """A real io.BytesIO as wsgi.input (what wsgiref-style test clients and some servers hand over), possibly positioned past 0
+    (a connection buffer holding a pipelined earlier request); records the sizes asked for."""
+
+    def __init__(self, data, start=0):
+        super().__init__(data)
+        self.seek(start)
+        self.start = start
+        self.reads = []          # (requested, returned_len), as RecStream records them
+
+    def read(self, n=-1):
+        out = super().read(n)
+        self.reads.append((n if n is not None and n >= 0 else -1, len(out)))
+        return out
+
+    @property
+    def consumed(self):
+        return self.tell() - self.start
 
 
 def make_environ(method='GET', path='/', qs='', headers=None, body=None, stream=None,
